@@ -76,7 +76,14 @@ impl CleanMarkerStore {
             .write()
             .map_err(|_| std::io::Error::new(std::io::ErrorKind::Other, "store lock poisoned"))?;
         for (topic, record) in updates {
-            guard.insert(topic.clone(), record.clone());
+            // Generations only grow. Two writers exist (the background persister and the flush at
+            // shutdown): a snapshot taken earlier must never replace a newer record.
+            match guard.get(topic) {
+                Some(current) if current.generation > record.generation => {}
+                _ => {
+                    guard.insert(topic.clone(), record.clone());
+                }
+            }
         }
         Self::persist_map(&self.path, &guard)
     }
